@@ -1,5 +1,184 @@
+//! Search driver: executes histories of searches that share one transposition table, exactly
+//! as the UCI layer does (get_best_move_until_stop on a Game built by text import + push_history),
+//! with the poll hook clearing the flag after a prescribed number of polls, a watchdog standing in
+//! for "left running until stopped", and the engine's own stdout (info lines) captured per search.
+//!
+//! Script (JSON): {"histories": [ [step, ...], ... ]}, step =
+//!   {"fen": F, "pre": [moves], "limit": d|null, "stop": N|null, "fresh": bool, "watch_ms": T,
+//!    "mate": 0|1|2, "tag": any}
+//! One `go` event per step.
+use crate::chess::move_struct::Move;
+use crate::chess::Game;
+use crate::constants::TT_CAPACITY;
+use crate::obs::{self, guard};
+use crate::play::{emit, open_out};
+use crate::search::{get_best_move_until_stop, TranspositionTable};
+use crate::verif;
 use crate::Args;
-pub fn run(_args: &Args) {
-    eprintln!("TOOL-ERROR not implemented");
-    std::process::exit(2);
+use serde_json::{json, Value};
+use std::io::{Read, Seek, SeekFrom, Write};
+use std::os::unix::io::AsRawFd;
+use std::sync::atomic::{AtomicBool, Ordering::Relaxed};
+
+pub struct Capture {
+    file: std::fs::File,
+    saved: i32,
+}
+
+impl Capture {
+    pub fn new() -> Self {
+        let path = format!("/tmp/vh-capture-{}", std::process::id());
+        let file = std::fs::OpenOptions::new().read(true).write(true).create(true).truncate(true).open(&path).unwrap();
+        let _ = std::fs::remove_file(&path);
+        Capture { file, saved: -1 }
+    }
+    pub fn begin(&mut self) {
+        std::io::stdout().flush().ok();
+        self.file.set_len(0).unwrap();
+        self.file.seek(SeekFrom::Start(0)).unwrap();
+        unsafe {
+            self.saved = libc::dup(1);
+            libc::dup2(self.file.as_raw_fd(), 1);
+        }
+    }
+    pub fn end(&mut self) -> String {
+        std::io::stdout().flush().ok();
+        unsafe {
+            libc::dup2(self.saved, 1);
+            libc::close(self.saved);
+        }
+        let mut s = String::new();
+        self.file.seek(SeekFrom::Start(0)).unwrap();
+        self.file.read_to_string(&mut s).ok();
+        s
+    }
+}
+
+/// project the info lines of one search
+pub fn project_info(text: &str) -> Value {
+    let mut depths = vec![];
+    let mut scores = vec![];
+    let mut pvs: Vec<Vec<String>> = vec![];
+    let mut other = 0;
+    for line in text.lines() {
+        if let Some(r) = line.strip_prefix("info depth ") {
+            depths.push(r.trim().parse::<i64>().unwrap_or(-1));
+        } else if let Some(r) = line.strip_prefix("info score cp ") {
+            scores.push(r.trim().parse::<i64>().unwrap_or(-99999));
+        } else if let Some(r) = line.strip_prefix("info pv") {
+            pvs.push(r.split_ascii_whitespace().map(|s| s.to_string()).collect());
+        } else if line.starts_with("info nodes ") {
+        } else if !line.trim().is_empty() {
+            other += 1;
+        }
+    }
+    json!({"depths": depths, "scores": scores, "pvs": pvs, "other": other})
+}
+
+pub fn new_table() -> TranspositionTable {
+    // small initial capacity: the table grows on demand (the binary pre-allocates TT_CAPACITY)
+    let _ = TT_CAPACITY;
+    TranspositionTable::default()
+}
+
+pub fn build_game(fen: &str, pre: &[String]) -> Result<Game, String> {
+    let mut g = if fen == "startpos" {
+        Game::default()
+    } else {
+        guard(|| Game::new(fen))?.map_err(|e| format!("import failed: {}", e))?
+    };
+    for t in pre {
+        let lg = guard(|| obs::gen(&mut g, true))?;
+        let m = lg.iter().find(|m| m.uci_notation() == *t).copied().ok_or(format!("prefix move {} not legal", t))?;
+        guard(|| g.push_history(m))?;
+    }
+    Ok(g)
+}
+
+pub fn run(args: &Args) {
+    let text = std::fs::read_to_string(args.req("script")).unwrap_or_else(|e| {
+        eprintln!("TOOL-ERROR cannot read script: {}", e);
+        std::process::exit(2)
+    });
+    let v: Value = serde_json::from_str(&text).unwrap();
+    let mut out = open_out(args.req("out"));
+    let mut cap = Capture::new();
+    let histories = v["histories"].as_array().cloned().unwrap_or_default();
+    for (hi, hist) in histories.iter().enumerate() {
+        let mut table = new_table();
+        for (si, step) in hist.as_array().cloned().unwrap_or_default().iter().enumerate() {
+            let fen = step["fen"].as_str().unwrap_or("startpos").to_string();
+            let pre: Vec<String> = step["pre"].as_array().map(|a| a.iter().map(|x| x.as_str().unwrap_or("").to_string()).collect()).unwrap_or_default();
+            let limit = step["limit"].as_u64().map(|d| d as u8);
+            let stop = step["stop"].as_u64();
+            let watch_ms = step["watch_ms"].as_u64().unwrap_or(5000);
+            if step["fresh"].as_bool().unwrap_or(false) {
+                table.clear();
+            }
+            let base = json!({"ev": "go", "h": hi, "s": si, "fen": if fen == "startpos" { json!(["startpos"]) } else { obs::chars(&fen) },
+                              "pre": pre, "limit": limit.map(|d| d as i64).unwrap_or(-1), "stop": stop.map(|n| n as i64).unwrap_or(-1),
+                              "fresh": si == 0 || step["fresh"].as_bool().unwrap_or(false),
+                              "mate": step["mate"].as_i64().unwrap_or(0), "tag": step["tag"].as_str().unwrap_or("").to_string()});
+            let mut base = base;
+            if let Some(xd) = step["xd"].as_array() {
+                base["xd"] = json!(xd);
+            }
+            let game = match build_game(&fen, &pre) {
+                Ok(g) => g,
+                Err(msg) => {
+                    let mut e = base.clone();
+                    e["setup_error"] = json!(msg);
+                    emit(&mut out, e);
+                    continue;
+                }
+            };
+            let flag = AtomicBool::new(true);
+            verif::reset(stop.unwrap_or(u64::MAX), false);
+            cap.begin();
+            let mut external = false;
+            let t0 = std::time::Instant::now();
+            let result: Result<Option<Move>, String> = std::thread::scope(|sc| {
+                let g2 = game.clone();
+                let tref = &mut table;
+                let fref = &flag;
+                let h = sc.spawn(move || guard(|| get_best_move_until_stop(&g2, tref, fref, limit)));
+                let deadline = t0 + std::time::Duration::from_millis(watch_ms);
+                while !h.is_finished() {
+                    if std::time::Instant::now() >= deadline && !external {
+                        external = true;
+                        flag.store(false, Relaxed);
+                    }
+                    std::thread::sleep(std::time::Duration::from_micros(200));
+                }
+                h.join().unwrap_or(Err("search thread died".to_string()))
+            });
+            let info = cap.end();
+            let mut e = base.clone();
+            e["ms"] = json!(t0.elapsed().as_millis() as u64);
+            e["external_stop"] = json!(external);
+            e["polls"] = json!(verif::POLLS.load(Relaxed));
+            e["after"] = json!(verif::POLLS_AFTER_STOP.load(Relaxed));
+            e["maxply"] = json!(verif::MAX_REAL_DEPTH.load(Relaxed));
+            e["tsize"] = json!(table.len());
+            e["info"] = project_info(&info);
+            match result {
+                Ok(best) => {
+                    e["panic"] = json!(false);
+                    e["best"] = match best {
+                        Some(m) => json!(m.uci_notation()),
+                        None => json!("none"),
+                    };
+                }
+                Err(msg) => {
+                    e["panic"] = json!(true);
+                    e["msg"] = json!(msg);
+                    e["best"] = json!("none");
+                    // a panic may leave the table half-written; start the next step from a fresh one
+                    table = new_table();
+                }
+            }
+            emit(&mut out, e);
+        }
+    }
+    out.flush().unwrap();
 }
